@@ -244,3 +244,76 @@ def ctl_rerun_write_before_reject(ctx):
     new = [f for f in E.rule_F6(ctx.derive(p2)).findings if f.key not in base]
     return ("rerun_write_before_reject", bool(new),
             "rerun validation moved after the writes: %d new finding(s)" % len(new))
+
+
+# ---------------------------------------------------------------------- exception rules
+def ctl_narrow_next_tasks_handler(ctx):
+    """get_next_tasks catches only KeyError instead of Exception: rendering failures escape."""
+    import ast
+    from sa import excs as X
+
+    def pred(n):
+        return isinstance(n, ast.ExceptHandler) and n.type is not None and \
+            ast.unparse(n.type) == "Exception"
+
+    def repl(n):
+        n.type = ast.Name(id="KeyError", ctx=ast.Load())
+        return n
+
+    return _edit_control(ctx, "narrow_next_tasks_handler", COND, "WorkflowConductor.get_next_tasks",
+                         pred, repl, [X.rule_X2], what="get_next_tasks catches KeyError only")
+
+
+def ctl_unwrap_criteria_try(ctx):
+    import ast
+    from sa import excs as X
+
+    def pred(n):
+        return isinstance(n, ast.Try) and "criteria" in ast.unparse(n.body[0])
+
+    return _edit_control(ctx, "unwrap_criteria_try", COND, "WorkflowConductor.update_task_state",
+                         pred, lambda n: n.body, [X.rule_X2],
+                         what="transition criteria evaluated outside the try")
+
+
+def ctl_unwrap_evaluator_try(ctx):
+    import ast
+    from sa import excs as X
+
+    def pred(n):
+        return isinstance(n, ast.Try)
+
+    return _edit_control(ctx, "unwrap_evaluator_try", "orquesta/expressions/yql.py",
+                         "YAQLEvaluator.evaluate", pred, lambda n: n.body, [X.rule_X1],
+                         what="YAQL evaluation outside the converting try")
+
+
+def ctl_handler_without_fail(ctx):
+    """The criteria handler logs but no longer fails the workflow."""
+    import ast
+    from sa import excs as X
+
+    def pred(n):
+        return isinstance(n, ast.Expr) and M.is_call_to(n.value, "request_workflow_status") and \
+            isinstance(getattr(n, "_parent", None), ast.AST)
+
+    def editor(tree):
+        d = M.find_def(tree, "WorkflowConductor.update_task_state")
+        n = 0
+        for h in ast.walk(d):
+            if isinstance(h, ast.ExceptHandler):
+                keep = [s for s in h.body if not (isinstance(s, ast.Expr) and M.is_call_to(
+                    s.value, "request_workflow_status"))]
+                if len(keep) != len(h.body):
+                    h.body[:] = keep or [ast.Pass()]
+                    n += 1
+        if not n:
+            raise M.EditFailed("no handler requests failed")
+
+    try:
+        p2 = M.apply(ctx.prog, COND, editor)
+    except M.EditFailed as e:
+        return ("handler_without_fail", True, "skipped: %s" % e)
+    base = {f.key for f in X.rule_X3(ctx).findings}
+    new = [f for f in X.rule_X3(ctx.derive(p2)).findings if f.key not in base]
+    return ("handler_without_fail", bool(new), "handler no longer fails the workflow: %d new" % len(new))
